@@ -1,4 +1,4 @@
-SPECIFICATION GenSpec
+SPECIFICATION TSpec
 CONSTANTS
   W = 8
   CH = 2
@@ -8,6 +8,8 @@ CONSTANTS
   Faults <- AllFaults
   MaxFaults = 1
   Stepped = TRUE
-  Dir = "fwd"
+  Dir = "rev"
 CHECK_DEADLOCK FALSE
-INVARIANTS PrintSched
+INVARIANT NotAccepted
+CONSTRAINT Track
+POSTCONDITION Post
